@@ -108,11 +108,54 @@ def run_history(scen: dict, case: dict, storage: str) -> dict:
     return {"desc": scen["desc"], "inputs": scen["inputs"], "ev": evs, "meta": {"storage": storage, "case": case}}
 
 
+def run_learners(scen: dict, variant: str, seed: int) -> dict:
+    """create_learners(...) executed element by element in a seeded random order that respects, per key, the order of the
+    generations; then the completely stored elements are observed and a final full map must find nothing to do."""
+    from pipefunc.map.adaptive import create_learners
+    rng = random.Random(seed)
+    pdesc = pmap.tla_desc_to_py(scen["desc"])
+    build.reset_log()
+    folder = tempfile.mkdtemp(prefix="pfverif_c06l_")
+    shutil.rmtree(folder)
+    shapes = ext_shapes(scen)
+    fnames = [fd["name"] for fd in pdesc["funcs"]]
+    evs: list[dict] = [pmap.ev(e="begin", F=fnames, cleanup=True)]
+    try:
+        with contextlib.redirect_stdout(io.StringIO()):
+            pl = build.make_pipeline(pdesc)
+            inp = pmap.inputs_to_py(scen["inputs"], {n: "list" for n, _ in scen["inputs"]})
+            kw = {"split_independent_axes": True} if variant == "split" else {}
+            learners = create_learners(pl, inp, folder, storage="file_array", cleanup=True, **kw)
+            # per key: list of generations, each a list of (function, point) still to run
+            todo = {k: [[(lp.learner._original_function, x) for lp in gen for x in lp.learner.sequence]  # noqa: SLF001
+                        for gen in gens] for k, gens in learners.items()}
+            start = len(build.LOG)
+            while any(any(g for g in gens) for gens in todo.values()):
+                k = rng.choice([k for k, gens in todo.items() if any(g for g in gens)])
+                gen = next(g for g in todo[k] if g)
+                f, x = gen.pop(rng.randrange(len(gen)))
+                f(x)
+        evs += pmap.log_events(start)
+        evs.append(pmap.ev(e="ldone"))
+        evs.append(pmap.ev(e="stored", disk=observe_disk(folder, shapes)))
+        e, _ = pmap.do_map(pl, pdesc, inp, run_folder=folder, storage="file_array", parallel=False, cleanup=False)
+        evs += e
+    except Exception as ex:  # noqa: BLE001
+        evs.append(pmap.ev(e="error", cls=type(ex).__name__, msg=str(ex)[:300]))
+    finally:
+        shutil.rmtree(folder, ignore_errors=True)
+    return {"desc": scen["desc"], "inputs": scen["inputs"], "ev": evs,
+            "meta": {"storage": "file_array", "case": {"kind": "learners", "variant": variant, "seed": seed, "parts": []}}}
+
+
 def classify(t: dict, reached: int) -> dict:
     e = t["ev"][reached - 1]
     c = t["meta"]["case"]
     nbegin = sum(1 for x in t["ev"][:reached] if x["e"] in ("begin", "reject"))
     final = c["kind"] == "parts" and nbegin == len(c["parts"]) + 1
+    if c["kind"] == "learners":
+        return {"check": "learners", "event": e["e"], "cls": e.get("cls", ""), "variant": c["variant"],
+                "in_final_run": any(x["e"] == "ldone" for x in t["ev"][:reached])}
     kinds = sorted({k[0] for k in c["parts"]}) if c["kind"] == "parts" else [c["req"][1][0]]
     neg_step = any(k[0] == "slice" and k[3] not in (NONE,) and k[3] < 0 for k in c.get("parts", []))
     return {"check": "partial-runs", "event": e["e"], "cls": e.get("cls", ""), "storage": t["meta"]["storage"],
@@ -126,7 +169,7 @@ def run(ctx: Ctx) -> None:
                 "ints, slices with None/negative bounds and steps; 1-3 parts; every order) each run with fixed_indices and "
                 "cleanup=False, stored elements observed after each part, then a full run; or one request that must be rejected; "
                 "non-trivial = at least two parts")
-    ctx.assumptions = ["learners (create_learners / adaptive) are not driven in this round", "sequential execution",
+    ctx.assumptions = ["learners are executed element by element through their SequenceLearner functions (adaptive runners / SLURM are not used)", "sequential execution",
                        "stored = unpicklable element files / persisted dict entries, observed independently of pipefunc"]
     check_slices(ctx)
     scenarios = ["outer", "consumer", "reduceother", "internalfirst", "fanout"] if quick else \
@@ -145,9 +188,16 @@ def run(ctx: Ctx) -> None:
             traces.append(run_history(scen, c, st))
             if not quick and c["kind"] == "parts" and k % 3 == 0:
                 traces.append(run_history(scen, c, storages[(k + 1) % 2]))
+    # learners: one SequenceLearner per function (and per key with split_independent_axes), executed element by element
+    for sc in (["outer", "consumer", "multi"] if quick else ["outer", "zip", "consumer", "reduceother", "multi", "internalfirst"]):
+        scen, _, _ = export(ctx, sc) if sc not in ("outer", "consumer", "reduceother", "internalfirst") or True else (None, None, None)
+        for variant in ("plain", "split"):
+            for k in range(2 if quick else 12):
+                traces.append(run_learners(scen, variant, ctx.seed * 100 + k))
     for t in traces:
         c = t["meta"]["case"]
-        ctx.case({"d": t["desc"], "c": c, "s": t["meta"]["storage"]}, nontrivial=c["kind"] == "parts" and len(c["parts"]) >= 2)
+        ctx.case({"d": t["desc"], "c": c, "s": t["meta"]["storage"]},
+                 nontrivial=(c["kind"] == "parts" and len(c["parts"]) >= 2) or c["kind"] == "learners")
     mid = next(t for t in traces if t["meta"]["case"]["kind"] == "parts" and len(t["meta"]["case"]["parts"]) >= 2)
     ctx.sample({"parts": mid["meta"]["case"]["parts"], "storage": mid["meta"]["storage"],
                 "events": [(e["e"], e["f"]) if e["e"] != "stored" else ("stored", len(e["disk"])) for e in mid["ev"]]})
